@@ -325,6 +325,35 @@ def witnesses(res, qidx, tag="wit", cap=14):
     return result
 
 
+def witness_equiv(res, pairs, tag="weq", cap=14):
+    """pairs: (type text a, type text b).  For each pair Coq enumerates inhabitants of a and of b (Spec/TsSem.v witnesses) and
+    returns the first inhabitant of one that is not a member of the other ("" if none; None if a text does not parse)."""
+    import tsparse
+    if "realname" not in res:
+        real_env(res)
+    terms, idx = [], []
+    for k, (a, b) in enumerate(pairs):
+        try:
+            ta, tb = tsparse.coq_ty(tsparse.parse_type(a)), tsparse.coq_ty(tsparse.parse_type(b))
+        except tsparse.ParseError:
+            continue
+        idx.append(k)
+        terms.append("(let ta := %s in let tb := %s in "
+                     "match filter (fun w => negb (memberb E sfuel tb w)) (firstn %d (witnesses E 40 ta)) ++ "
+                     "filter (fun w => negb (memberb E sfuel ta w)) (firstn %d (witnesses E 40 tb)) with [] => [] | w :: _ => json_text w end)" % (ta, tb, cap, cap))
+    out = {}
+    for part in vlib.chunks(list(range(len(idx))), 40):
+        body = ("From TsRs Require Import Corr.%s Corr.%s Spec.Serde.\n" % (res["envname"], res["realname"]) + CR.HEADER + SEM_HEADER +
+                "Eval vm_compute in %s.\n" % coq_list([terms[i] for i in part], sep=";\n "))
+        ok, o = vlib.coq_eval("%s_%s" % (res["envname"], tag), body, timeout=2400)
+        if not ok:
+            raise vlib.HarnessError("witness equivalence file failed: " + o[-3000:])
+        vals = vlib.parse_coq_str_list(o.split("=", 1)[1].rsplit(":", 1)[0])
+        for i, v in zip(part, vals):
+            out[idx[i]] = v
+    return [out.get(k) for k in range(len(pairs))]
+
+
 def deserialize(res, items):
     """items: list of (query index, k, json text) -> {(qi, k): re-serialised json | '\x00ERR'} from the REAL serde_json::from_str::<T>"""
     import os
